@@ -334,3 +334,10 @@ def r6(c):
     dep = t.get('dependencies', {}).get('rodbus', {})
     c.ob('feature', 'ffi' in dep.get('features', []) and dep.get('path'), 'rodbus-ffi depends on the in-tree rodbus with feature "ffi"', str(dep))
     c.ob('FfiChannel', c.P.has('rodbus::client::ffi_channel::FfiChannel::send'), 'FfiChannel exists in the analysed rodbus', '')
+
+
+@rule('C18', 'R18.7', 'authorization callbacks cross the C ABI one-to-one and default to Deny (C08/R08.7)',
+      needs=lambda P: 'rodbus_ffi' in P.crates and P.has('rodbus::tcp::tls::server::TlsServerConfig::new'))
+def r7(c):
+    from rules import c08
+    c08.r7(c)
